@@ -106,7 +106,13 @@ def evaluate(ctx, cases):
                     "RelativeJSONPointer(text).to(base text)": lambda: RelativeJSONPointer(text).to(base_s),
                     "RelativeJSONPointer(text).to(JSONPointer(base))": lambda: RelativeJSONPointer(text).to(JSONPointer(base_s)),
                     "JSONPointer(base).to(RelativeJSONPointer(text))": lambda: JSONPointer(base_s).to(RelativeJSONPointer(text)),
+                    # bases whose tokens are held as strings: built from parts, or themselves produced by an application
+                    "JSONPointer.from_parts(base tokens).to(text)": lambda: JSONPointer.from_parts([str(t) for t in c["base"]]).to(text),
+                    "JSONPointer.from_parts(mixed int/str tokens).to(text)": lambda: JSONPointer.from_parts([int(t) if (t.isascii() and t.isdigit() and (t == "0" or t[0] != "0") and len(t) < 10) else t for t in c["base"]]).to(text),
+                    "JSONPointer(base).to('0').to(text)": lambda: JSONPointer(base_s).to("0").to(text),
                 }
+                if c["base"]:
+                    forms["JSONPointer(base + extra).to('1').to(text)"] = lambda: JSONPointer(base_s + "/extra").to("1").to(text)
                 for name, fn in forms.items():
                     r = core.outcome(lambda: str(fn()))
                     ri = {"ok": r["ok"]} if "ok" in r else {"err": r["err"]}
